@@ -99,6 +99,25 @@ def check(fs, want_model=False, strings_fallback=True, timeout_ms=None):
             if v != 'unknown':
                 stats['cvc5_decided'] += 1
                 out = (v, rest if v == 'sat' else None, 'cvc5')
+        if out[0] == 'unknown' and strings_fallback:
+            # verdicts must not flip with machine load or solver seed: before giving up, z3 again with other
+            # seeds and a growing budget (a verdict of either polarity from any attempt is a real verdict)
+            for k in (1, 2):
+                s2 = z3.Solver()
+                s2.set('timeout', (timeout_ms or Z3_MS) * (2 * k + 1))
+                s2.set('random_seed', SEED + 7919 * k)
+                for f in fs:
+                    s2.add(f)
+                t0 = time.time()
+                r2 = s2.check()
+                stats['z3_ms'] += (time.time() - t0) * 1000
+                stats['retries'] = stats.get('retries', 0) + 1
+                if r2 == z3.unsat:
+                    out = ('unsat', None, 'z3')
+                    break
+                if r2 == z3.sat:
+                    out = ('sat', s2.model() if want_model else None, 'z3')
+                    break
         if out[0] == 'unknown':
             stats['unknown'] += 1
     _cache[key] = (out, fs)
